@@ -102,15 +102,15 @@ def cbuild_case(calls, res):
 
 
 def cevent(ev, joined):
-    pdu, a, txadd, rssi, _hx = ev
-    return "{| ev_pdu := %s; ev_addr := %d; ev_txadd := %d; ev_rssi := %d; ev_data := %s |}" % (
-        pdu, a, txadd, rssi, cbytes(bytes.fromhex(joined)))
+    dt, pdu, a, txadd, rssi, _hx = ev
+    return "{| ev_dt := %d; ev_pdu := %s; ev_addr := %d; ev_txadd := %d; ev_rssi := %d; ev_data := %s |}" % (
+        dt, pdu, a, txadd, rssi, cbytes(bytes.fromhex(joined)))
 
 def cdevobs(d):
-    t, r, adv, rsp, got, conn, scanned, reported = d
-    return "(%d, %d, %s, %s, %s, %s, %s, %s)" % (t, r, clist([cobs(x) for x in adv]),
+    t, r, adv, rsp, got, conn, scanned, reported, ts, last = d
+    return "(%d, %d, %s, %s, %s, %s, %s, %s, %d, %d)" % (t, r, clist([cobs(x) for x in adv]),
         "None" if rsp is None else "(Some %s)" % clist([cobs(x) for x in rsp]),
-        cbool(got), cbool(conn), cbool(scanned), cbool(reported))
+        cbool(got), cbool(conn), cbool(scanned), cbool(reported), ts, last)
 
 def cseq_case(case, res):
     evs = [cevent(ev, st["joined"]) for ev, st in zip(case["events"], res["steps"]) if "joined" in st]
@@ -128,23 +128,39 @@ GOOD_ADV = ["020106", "0201060409414243", "02010603031218", "", "020a05", "03ff3
 BAD_ADV = ["010a", "0201", "05094142", "020106ff", "0119", "02010603", "031901", "0224c3", "021c09", "0112", "09"]
 
 
+DTS = [0, 0, 1, 100, 250, 499, 500, 501, 600, 1000]
+
+
 def gen_seq_systematic():
     """Every sequence of length 1..3 over {good/bad ADV_IND, good/bad SCAN_RSP} of one address,
-    both settings of `updates`; the same shapes with ADV_NONCONN_IND and a second address mixed in."""
+    both settings of `updates`, no time passing and 300 ms per event (the third call is past the
+    timeout); the same shapes with ADV_NONCONN_IND and a second address mixed in; and the timeout
+    boundary: a device first seen at t, any event at t + 499 / 500 / 501 / 1000 ms, then more events."""
     out = []
     alpha = [("AdvInd", "020106"), ("AdvInd", "010a"), ("ScanRsp", "0409414243"), ("ScanRsp", "010a")]
     for n in (1, 2, 3):
         for combo in itertools.product(alpha, repeat=n):
             for upd in (False, True):
-                out.append({"filter": None, "updates": upd, "events": [[p, 1, 0, 40, h] for p, h in combo]})
+                for dt in (0, 300):
+                    out.append({"filter": None, "updates": upd, "events": [[dt, p, 1, 0, 40, h] for p, h in combo]})
     for bad in BAD_ADV:
         for first in ("AdvInd", "AdvNonconn"):
             out.append({"filter": None, "updates": False,
-                        "events": [[first, 1, 1, 40, "020106"], ["ScanRsp", 2, 0, 40, bad], ["ScanRsp", 1, 1, 40, bad],
-                                   ["ScanRsp", 1, 1, 41, "020a01"], ["ScanRsp", 1, 1, 41, bad], [first, 1, 1, 42, bad]]})
+                        "events": [[5, first, 1, 1, 40, "020106"], [5, "ScanRsp", 2, 0, 40, bad], [5, "ScanRsp", 1, 1, 40, bad],
+                                   [5, "ScanRsp", 1, 1, 41, "020a01"], [5, "ScanRsp", 1, 1, 41, bad], [600, first, 1, 1, 42, bad]]})
         out.append({"filter": 1, "updates": True,
-                    "events": [["ScanRsp", 1, 0, 40, bad], ["AdvInd", 2, 0, 40, "020106"], ["AdvInd", 1, 0, 40, "020106"],
-                               ["ScanRsp", 2, 0, 40, bad], ["ScanRsp", 1, 0, 40, bad]]})
+                    "events": [[0, "ScanRsp", 1, 0, 40, bad], [10, "AdvInd", 2, 0, 40, "020106"], [10, "AdvInd", 1, 0, 40, "020106"],
+                               [10, "ScanRsp", 2, 0, 40, bad], [700, "ScanRsp", 1, 0, 40, bad]]})
+    # timeout boundary, every kind of second event, both `updates`
+    seconds = [("AdvInd", 1, 40, "020106"), ("AdvInd", 1, 41, "020106"), ("AdvInd", 1, 40, "010a"), ("ScanRsp", 1, 40, "020a01"),
+               ("ScanRsp", 1, 40, "010a"), ("OtherPdu", 1, 40, ""), ("AdvInd", 2, 40, "020106"), ("ScanRsp", 2, 40, "020a01")]
+    for dt in (499, 500, 501, 1000):
+        for p, a, rssi, h in seconds:
+            for upd in (False, True):
+                out.append({"filter": None, "updates": upd,
+                            "events": [[7, "AdvInd", 1, 0, 40, "020106"], [dt, p, a, 0, rssi, h],
+                                       [1, "AdvNonconn", 3, 0, 40, "020106"], [600, "ScanRsp", 1, 0, 40, "020a02"],
+                                       [0, "OtherPdu", 4, 0, 40, ""], [600, "AdvInd", 1, 0, 45, "020106"]]})
     return out
 
 
@@ -164,7 +180,7 @@ def gen_seq_random(rng, seeds):
         else:
             d = (mutate(rng, rng.choice(seeds)) if seeds else rand_tlv(rng)).hex()
         d = d[:2 * rng.choice([31, 31, 31, 31, 36])]
-        evs.append([pdu, a, rng.randrange(2), rng.choice([40, 40, 41, 60]), d])
+        evs.append([rng.choice(DTS), pdu, a, rng.randrange(2), rng.choice([40, 40, 41, 60]), d])
     return {"filter": rng.choice([None, None, None, 1, 2, 5]), "updates": rng.random() < 0.5, "events": evs}
 
 
@@ -521,6 +537,34 @@ def run(ctx):
             report(cls, "on_device_found raised %s during a sequence of advertisements (step %d)" % (last["exc"], len(rq[i]["steps"])),
                    {"op": "seq", "case": c2, "kind": "systematic" if i < n_seq_sys else "random"},
                    expected="no exception for any sequence", observed=last["exc"])
+    # what is reported when (plain scans: updates=False, no filter, so the returned list is
+    # exactly what the timeout sweep reports): a device is returned exactly once, by the first
+    # call after which it has a scan response or that is made > 500 ms after it was first stored
+    n_when = 0
+    for i, case in enumerate(seq_in):
+        if case["updates"] or case["filter"] is not None or any("ret" not in st for st in rq[i]["steps"]):
+            continue
+        n_when += 1
+        t, first_seen, returned, bad = 0, {}, {}, None
+        for k, (ev, st) in enumerate(zip(case["events"], rq[i]["steps"])):
+            t += ev[0]
+            for a in st["known"]:
+                first_seen.setdefault(a, t)
+            exp = sorted(a for a in st["known"] if a not in returned and (a in st["got"] or t - first_seen[a] > 500))
+            if sorted(st["ret"]) != exp:
+                bad = (k, exp, st["ret"])
+                break
+            for a in st["ret"]:
+                returned[a] = k
+        if bad:
+            c2 = case
+            if seen_classes.get("seq-reported-when", 0) < 1:
+                c2, w2 = shrink_when(case)
+                bad = w2 or bad
+            report("seq-reported-when", "on_device_found (updates=False, no filter) returned %r at call %d; a device must be reported exactly once: "
+                   "by the call that stores its scan response or the first call more than 500 ms after it was first seen (expected %r)"
+                   % (bad[2], bad[0] + 1, bad[1]), {"op": "seq", "case": c2, "kind": "reported-when"}, expected=bad[1], observed=bad[2])
+    ctx.cov["plain_scans_checked_for_report_time"] = n_when
     if exh:
         for h, nme in exh["bad"][:3]:
             ctx.violation("from_bytes raised %s (exhaustive length-3 sweep)" % nme, {"op": "parse", "hex": h, "kind": "exh3"},
@@ -630,11 +674,14 @@ def run(ctx):
         "urlparse_calls_recorded": sum(len(r["urls"]) for r in rp) + sum(len(r["urls"]) for r in rb),
         "scan_cases": len(scan_in),
         "scan_sequences": len(seq_in), "scan_sequences_systematic": n_seq_sys, "scan_events": sum(len(c["events"]) for c in seq_in),
-        "scan_events_by_pdu": {p: sum(1 for c in seq_in for e in c["events"] if e[0] == p) for p in ("AdvInd", "AdvNonconn", "ScanRsp", "OtherPdu")},
+        "scan_events_by_pdu": {p: sum(1 for c in seq_in for e in c["events"] if e[1] == p) for p in ("AdvInd", "AdvNonconn", "ScanRsp", "OtherPdu")},
         "scan_final_phases": {"waiting": sum(1 for r in rq for _i, d in r["final"] if d is not None and not d[4]),
                               "complete": sum(1 for r in rq for _i, d in r["final"] if d is not None and d[4]),
                               "unknown": sum(1 for r in rq for _i, d in r["final"] if d is None)},
-        "scan_events_scapy_rejoin_differs": sum(1 for c, r in zip(seq_in, rq) for e, st in zip(c["events"], r["steps"]) if st.get("joined") != e[4]),
+        "scan_devices_reported": {"after_scan_response": sum(1 for r in rq for _i, d in r["final"] if d is not None and d[7] and d[4]),
+                                  "after_timeout": sum(1 for r in rq for _i, d in r["final"] if d is not None and d[7] and not d[4]),
+                                  "not_reported": sum(1 for r in rq for _i, d in r["final"] if d is not None and not d[7])},
+        "scan_events_scapy_rejoin_differs": sum(1 for c, r in zip(seq_in, rq) for e, st in zip(c["events"], r["steps"]) if st.get("joined") != e[5]),
         "scan_sequences_scapy_raised": seq_scapy, "utf8_decode_cases": len(dec_in) + 65536, "utf8_encode_cases": len(enc_in),
         "utf8_decode_valid": sum(1 for d in ru["decode"] if d is not None),
         "exhaustive_len3_oracle": exh["counts"] if exh else "thorough tier only",
@@ -712,6 +759,45 @@ def shrink_seq(case, cls):
     return cur
 
 
+def when_violation(case, res):
+    if any("ret" not in st for st in res["steps"]):
+        return None
+    t, first_seen, returned = 0, {}, {}
+    for k, (ev, st) in enumerate(zip(case["events"], res["steps"])):
+        t += ev[0]
+        for a in st["known"]:
+            first_seen.setdefault(a, t)
+        exp = sorted(a for a in st["known"] if a not in returned and (a in st["got"] or t - first_seen[a] > 500))
+        if sorted(st["ret"]) != exp:
+            return (k, exp, st["ret"])
+        for a in st["ret"]:
+            returned[a] = k
+    return None
+
+
+def shrink_when(case):
+    """Drop events (their elapsed time is added to the next one) while the report-time rule stays violated."""
+    cur, viol = case, None
+    for _ in range(10):
+        evs = cur["events"]
+        cands = []
+        for i in range(len(evs)):
+            rest = [list(e) for e in evs[:i] + evs[i + 1:]]
+            if i < len(evs) - 1:
+                rest[i][0] += evs[i][0]
+            if rest:
+                cands.append(dict(cur, events=rest))
+        if not cands:
+            break
+        res = C.run_impl("C15.py", {"seq": cands})["seq"]
+        nxt = [(c, when_violation(c, r)) for c, r in zip(cands, res)]
+        nxt = [(c, w) for c, w in nxt if w]
+        if not nxt:
+            break
+        cur, viol = nxt[0]
+    return cur, viol
+
+
 def replay(payload):
     case = payload.get("case") or payload.get("first_disagreeing_case") or {}
     print(json.dumps(case)[:3000])
@@ -725,6 +811,11 @@ def replay(payload):
         r = C.run_impl("C15.py", {"seq": [case["case"]]})["seq"][0]
         print("on_device_found over the sequence now gives:", [{k: v for k, v in st.items() if k in ("ret", "exc")} for st in r["steps"]])
         bad = any("exc" in st for st in r["steps"])
+        if not bad and not case["case"]["updates"] and case["case"]["filter"] is None:
+            w = when_violation(case["case"], r)
+            if w:
+                print("call %d returned %r, expected %r" % (w[0] + 1, w[2], w[1]))
+                bad = True
         print("property STILL violated" if bad else "property holds on this sequence")
         return 1 if bad else 0
     if case.get("op") == "scan":
